@@ -157,7 +157,7 @@ def make_case(rng, sh):
     # what a non-Response result is: the render side runs for anything that is not a Response - bytes (binary or text),
     # text, containers, empty containers - exactly as for an opaque object
     if rng.chance(0.5):
-        cfg['ctx_flavour'] = rng.pick(['bytes-binary', 'bytes-latin1', 'bytes-text', 'bytearray', 'str', 'dict', 'list', 'empty-dict'])
+        cfg['ctx_flavour'] = rng.pick(['bytes-binary', 'bytes-latin1', 'bytes-text', 'bytearray', 'str', 'dict', 'list', 'empty-dict', 'exception-object', 'exception-object', 'exception-class'])
         sh.hit('non-response-result:' + cfg['ctx_flavour'])
     sh.hit('levels:%d' % nlev)
     for ph, _ in funcs:
